@@ -59,7 +59,7 @@ RULE = ("stacks of 0..3 elements over 3 library probes, 2 block probes and 8 shi
 BOUND = {"quick": "parse/write: all 183 stacks of length <= 2 x 7 documents x 2 argument positions + 8000 random stacks of length 3 per side; "
                   "both: 4 functions x 9 stack pairs; parse_file: every (document, encoding) pair x 3 argument forms x 6 stacks; "
                   "write_file: 7 documents x 2 targets x 3 argument forms x 3 formats x 4 stacks; iterable: 4 positions x 2 forms x 6 "
-                  "stacks x 3 documents; block: 19 modes x (each block kind alone, duplicate pairs, 9 target classes on the 11-block library) + 8000 random libraries",
+                  "stacks x 3 documents; block: 26 modes (among them falsy non-blocks False, 0, 0.0, objects with false __bool__ / zero __len__) x (each block kind alone, duplicate pairs, 9 target classes on the 11-block library) + 8000 random libraries",
          "thorough": "same with 60000 random stacks of length 3 per side and 60000 random block libraries"}
 
 
@@ -341,7 +341,18 @@ BLOCK_CLASSES = ["Entry", "String", "Preamble", "ExplicitComment", "ImplicitComm
                  "DuplicateFieldKeyBlock", "MiddlewareErrorBlock"]
 ZERO_MODES = ["none", "empty_list", "empty_tuple", "empty_str"]
 MODES = ZERO_MODES + ["same", "one_new", "list_1", "list_2", "list_3", "tuple_1", "tuple_2", "tuple_3",
-                      "generator", "int", "object", "list_with_int", "tuple_with_none", "list_of_lists", "iterator"]
+                      "generator", "int", "object", "list_with_int", "tuple_with_none", "list_of_lists", "iterator",
+                      "false", "true", "zero", "zero_float", "falsy_object", "zero_len_object", "str_x"]
+
+
+class _Falsy:
+    def __bool__(self):
+        return False
+
+
+class _ZeroLen:                                                   # sized but not a Collection (no __iter__ / __contains__)
+    def __len__(self):
+        return 0
 ALL_KINDS = [
     {"t": "string", "key": "s", "value": "\"v\""}, {"t": "icomment", "comment": "free"},
     {"t": "entry", "type": "article", "key": "dup", "fields": [["a", "{1}"]]}, {"t": "preamble", "value": "p"},
@@ -384,6 +395,10 @@ def produce(mode, block, pos):
         return 5, TypeError
     if mode == "object":
         return object(), TypeError
+    if mode in ("false", "true", "zero", "zero_float", "falsy_object", "zero_len_object", "str_x"):
+        # falsy values that are neither None nor a collection are non-block results like any other
+        return {"false": False, "true": True, "zero": 0, "zero_float": 0.0, "falsy_object": _Falsy(), "zero_len_object": _ZeroLen(),
+                "str_x": "x"}[mode], TypeError
     if mode == "list_with_int":
         return [block, 5], TypeError
     if mode == "tuple_with_none":
